@@ -129,6 +129,14 @@ def r03_3(rep, M, rid):
     mfn = M.func(mq)
     ifs = [t for t in ast.walk(mfn) if isinstance(t, ast.If) and isinstance(t.test, ast.Compare) and "len(" in norm(t.test)]
     ok = False
+    # the target is the local whose .species is handed to the merged Cluster
+    TGT = None
+    for call in M.calls_to(mq, c01.CLUSTER_INIT):
+        sp = M.bind_args(c01.CLUSTER_INIT, call).get("species")
+        if isinstance(sp, ast.Attribute) and sp.attr == "species" and isinstance(sp.value, ast.Name):
+            TGT = sp.value.id
+    if TGT is None:
+        raise AnalysisError("merge: the cluster whose species survive was not identified")
     for t in ifs:
         test = t.test
         if len(test.ops) == 1 and isinstance(test.ops[0], (ast.Gt, ast.GtE, ast.Lt, ast.LtE)):
@@ -137,8 +145,8 @@ def r03_3(rep, M, rid):
             if a is None or b is None:
                 continue
             larger_true = a if isinstance(test.ops[0], (ast.Gt, ast.GtE)) else b
-            tgt_true = [norm(s.value) for s in t.body if isinstance(s, ast.Assign) and norm(s.targets[0]) == "target"]
-            tgt_false = [norm(s.value) for s in t.orelse if isinstance(s, ast.Assign) and norm(s.targets[0]) == "target"]
+            tgt_true = [norm(s.value) for s in t.body if isinstance(s, ast.Assign) and norm(s.targets[0]) == TGT]
+            tgt_false = [norm(s.value) for s in t.orelse if isinstance(s, ast.Assign) and norm(s.targets[0]) == TGT]
             other = b if larger_true == a else a
             if tgt_true == [larger_true] and tgt_false == [other]:
                 ok = True
